@@ -106,6 +106,10 @@ func (tr *Translator) decFn(t types.Type) (dec, ok string) {
 	ok = "decOK_" + typeKey(t)
 	u.decl(dec, fmt.Sprintf("(declare-fun %s (JV) %s)", dec, u.sortOf(t)))
 	u.decl(ok, fmt.Sprintf("(declare-fun %s (JV) Bool)", ok))
+	if n, isNamed := t.(*types.Named); isNamed && n.Obj().Pkg() != nil && n.Obj().Pkg().Path() == "encoding/json" && n.Obj().Name() == "RawMessage" {
+		// json.RawMessage keeps the raw bytes of the value: decoding never fails and the bytes denote the value
+		u.decl("dec_rawmessage", fmt.Sprintf("(assert (forall ((v JV)) (! (and (%s v) (= (jv (%s v)) v) (not (= (sl_arr (%s v)) 0))) :pattern ((%s v)))))", ok, dec, dec, dec))
+	}
 	if it, isIface := t.Underlying().(*types.Interface); isIface && it.NumMethods() == 0 && !u.declSet["dec_iface_str"] {
 		// decoding into interface{}: a JSON string becomes a Go string (and nothing else does)
 		strT := types.Typ[types.String]
@@ -221,9 +225,10 @@ func (fc *fctx) jsonMarshal(cc *ssa.CallCommon, pos token.Pos) []*Val {
 			// pointer receiver, value argument: not addressable, the method is not used by encoding/json
 			arg = nil
 		}
-		if arg != nil {
+		if arg != nil && !tr.opaqueCodec(m) {
 			return fc.callFunction(m, []*Val{arg}, pos)
 		}
+		// a nested kind with its own codec and no contract: opaque enc_T (the kind's own round-trip lemma is about it)
 	}
 	b := fc.freshVal("jm_b", bytesT)
 	errv := fc.freshVal("jm_err", errT)
@@ -237,7 +242,11 @@ func (fc *fctx) jsonMarshal(cc *ssa.CallCommon, pos token.Pos) []*Val {
 	tr.assume(implies(not(okc), eq(slPart(b, 0), "0")))
 	var sv *Val // struct value to encode field by field
 	var st *types.Struct
-	if s, _ := structOf(base); s != nil {
+	opaque := false
+	if m := tr.methodOf(base, "MarshalJSON"); m != nil && tr.opaqueCodec(m) {
+		opaque = true
+	}
+	if s, _ := structOf(base); s != nil && !opaque {
 		st = s
 		if viaPtr {
 			sv = tr.loadTag(tr.cur, v.E(), base, "cell")
@@ -326,14 +335,19 @@ func (fc *fctx) jsonUnmarshal(cc *ssa.CallCommon, pos token.Pos) []*Val {
 	}
 	// custom decoder of this package
 	if m := tr.methodOf(base, "UnmarshalJSON"); m != nil && (m.Pkg == tr.spkg || strings.Contains(m.String(), pkgPath)) {
-		if _, recvPtr := m.Signature.Recv().Type().Underlying().(*types.Pointer); recvPtr {
+		if _, recvPtr := m.Signature.Recv().Type().Underlying().(*types.Pointer); recvPtr && !tr.opaqueCodec(m) {
 			tr.obligeAssume("safe", "safe/"+fnKey(fc.fn)+"/nil/json.Unmarshal-target", not(eq(p.E(), "0")), pos)
 			return fc.callFunction(m, []*Val{p, data}, pos)
 		}
+		// a nested kind with its own decoder and no contract: opaque dec_T below
 	}
 	errv := fc.freshVal("ju_err", errT)
 	tr.obligeAssume("safe", "safe/"+fnKey(fc.fn)+"/nil/json.Unmarshal-target", not(eq(p.E(), "0")), pos)
-	if st, _ := structOf(base); st != nil {
+	opaque := false
+	if m := tr.methodOf(base, "UnmarshalJSON"); m != nil && tr.opaqueCodec(m) {
+		opaque = true
+	}
+	if st, _ := structOf(base); st != nil && !opaque {
 		fields := jsonFields(st)
 		oks := []string{"(isObj " + J + ")"}
 		type upd struct {
@@ -548,4 +562,17 @@ func (tr *Translator) jsonLiteralFacts(b *Val, lit string) {
 	default:
 		tr.assume(not("(isObj " + J + ")"))
 	}
+}
+
+// opaqueCodec: the codec method belongs to a kind declared `opaque` in the contract file; behind json.Marshal /
+// json.Unmarshal it is then the uninterpreted enc_T / dec_T its own lemma is about.
+func (tr *Translator) opaqueCodec(m *ssa.Function) bool {
+	t := m.Signature.Recv().Type()
+	if p, ok := t.Underlying().(*types.Pointer); ok {
+		t = p.Elem()
+	}
+	if n, ok := t.(*types.Named); ok {
+		return tr.contracts.Opaque[n.Obj().Name()] && !tr.inlineAnyway[fnKey(m)]
+	}
+	return false
 }
